@@ -183,7 +183,14 @@ class HttpSource(Source[Union[str,Iterable[str]]]):
         if encoding == 'deflate':
             decomp = zlib.decompressobj(-zlib.MAX_WBITS).decompress
         elif encoding == "gzip":
-            decomp = zlib.decompressobj(16+zlib.MAX_WBITS).decompress
+            def decomp(data, state=[zlib.decompressobj(16+zlib.MAX_WBITS)]):
+                #a gzip body can be several members one after the other while a decompressobj stops at the end of the first
+                out = b''
+                while data:
+                    if state[0].eof: state[0] = zlib.decompressobj(16+zlib.MAX_WBITS)
+                    out += state[0].decompress(data)
+                    data = state[0].unused_data
+                return out
         else:
             decomp = lambda x: x
 
